@@ -98,7 +98,7 @@ Section Refine.
   Lemma inb_abs v i : inb i (abs v) = (0 <=? i) && (i <? vlen v).
   Proof. unfold inb. now rewrite len_abs. Qed.
 
-  Lemma sim_replace p v i a : 0 <= i < two64 - 1 -> vlen v < two64 -> sim p v (OReplace i a).
+  Lemma sim_replace p v i a : 0 <= i < two64 -> vlen v < two64 -> sim p v (OReplace i a).
   Proof.
     intros H B. pose proof (vlen_bound v) as VB. unfold sim. cbn [impl_step spec_step]. unfold s_replace. rewrite inb_abs, len_abs.
     destruct (i <? vlen v) eqn:E.
@@ -107,10 +107,10 @@ Section Refine.
       destruct (vidx_ok v (vlen v - (i + 1)) ltac:(lia)) as (x & _ & V). rewrite V. cbn [rbind fst snd].
       eexists; split; [reflexivity|].
       unfold abs. rewrite slot_nat by lia. apply upd_rev. apply pos_lt; lia.
-    - rewrite andb_false_r. rewrite uadd_ok by lia. cbn [rbind fst snd]. finish.
+    - rewrite andb_false_r. cbn [rbind fst snd]. change 18446744073709551615 with (two64 - 1). finish.
   Qed.
 
-  Lemma sim_remove p v i : 0 <= i < two64 - 1 -> vlen v < two64 -> sim p v (ORemove i).
+  Lemma sim_remove p v i : 0 <= i < two64 -> vlen v < two64 -> sim p v (ORemove i).
   Proof.
     intros H B. pose proof (vlen_bound v) as VB. unfold sim. cbn [impl_step spec_step fst snd]. unfold s_remove.
     destruct (i <? vlen v) eqn:E.
@@ -141,7 +141,7 @@ Section Refine.
   Lemma sim_pushfront p v a : sim p v (OPushFront a).
   Proof. unfold sim. cbn. unfold s_push_front, abs. finish. Qed.
 
-  Lemma sim_yank p v i : 0 <= i < two64 - 1 -> vlen v < two64 -> sim p v (OYank i).
+  Lemma sim_yank p v i : 0 <= i < two64 -> vlen v < two64 -> sim p v (OYank i).
   Proof.
     intros H B. pose proof (vlen_bound v) as VB. unfold sim. cbn [impl_step spec_step fst snd]. unfold s_yank.
     destruct ((0 <? i) && (i <? vlen v)) eqn:E.
@@ -161,7 +161,7 @@ Section Refine.
     s_pop v = match abs v with [] => (None, v) | x :: r => (Some x, rev r) end.
   Proof. reflexivity. Qed.
 
-  Lemma sim_shove p v i : 0 <= i < two64 - 1 -> vlen v < two64 -> sim p v (OShove i).
+  Lemma sim_shove p v i : 0 <= i < two64 -> vlen v < two64 -> sim p v (OShove i).
   Proof.
     intros H B. pose proof (vlen_bound v) as VB. unfold sim. cbn [impl_step spec_step fst snd]. unfold s_shove.
     rewrite len_abs. rewrite s_pop_abs.
@@ -318,14 +318,14 @@ Section Refine.
 
   (* out-of-range positions are reported as absent and never fail *)
   Theorem out_of_range_absent_lemma : forall p (v : vec A) i a,
-    vlen v <= i < two64 - 1 -> vlen v < two64 ->
+    vlen v <= i < two64 -> vlen v < two64 ->
     impl_step eqA streq p v (OGet i) = Ok (v, UOA None) /\
     impl_step eqA streq p v (OCopy i) = Ok (v, UOA None) /\
     impl_step eqA streq p v (OEqualAt i a) = Ok (v, UOB None) /\
     impl_step eqA streq p v (ORemove i) = Ok (v, UUnit) /\
     impl_step eqA streq p v (OYank i) = Ok (v, UUnit) /\
     impl_step eqA streq p v (OShove i) = Ok (v, UUnit) /\
-    impl_step eqA streq p v (OReplace i a) = Ok (v, UOZ (Some (i - vlen v + 1))) /\
+    impl_step eqA streq p v (OReplace i a) = Ok (v, UOZ (Some (Z.min (two64 - 1) (i - vlen v + 1)))) /\
     (vlen v < i -> impl_step eqA streq p v (OPopVec i) = Ok (v, UOL None) /\
                    impl_step eqA streq p v (OCopyVec i) = Ok (v, UOL None)).
   Proof.
@@ -333,8 +333,7 @@ Section Refine.
     cbn [impl_step]. unfold s_get, s_copy, s_equal_at, s_remove, s_yank, s_shove, s_replace,
       s_pop_vec, s_copy_vec.
     replace (i <? vlen v) with false by lia. replace (vlen v <=? i) with true by lia.
-    rewrite andb_false_r. cbn [rbind].
-    rewrite uadd_ok by lia. cbn [rbind fst snd].
+    rewrite andb_false_r. cbn [rbind fst snd].
     repeat split; try reflexivity.
     - destruct (vlen v =? 0) eqn:E; [reflexivity|].
       rewrite usub_ok by lia. cbn [rbind]. now replace (vlen v - 1 <? i) with true by lia.
@@ -347,6 +346,7 @@ From PushModel Require Import Suites.SStack.
 Lemma ops_wf_b_sound : forall ops t, ops_wf_b t ops = true -> ops_wf Z.eqb Z.eqb t ops.
 Proof.
   induction ops as [|o r IH]; intros t H; cbn [ops_wf_b ops_wf] in *; [exact I|].
+  rewrite spec_step_c_eq in H.
   apply andb_prop in H as [H1 H2]. split; [|now apply IH].
   destruct o; cbn [op_wf]; try exact I; try lia.
 Qed.
@@ -358,6 +358,7 @@ Lemma ops_wf_bg_sound : forall (A : Type) (eqA streq : A -> A -> bool) (ops : li
 Proof.
   intros A eqA streq.
   induction ops as [|o r IH]; intros t H; cbn [ops_wf_bg ops_wf] in *; [exact I|].
+  rewrite spec_step_c_eq in H.
   apply andb_prop in H as [H1 H2]. split; [|now apply IH].
   destruct o; cbn [op_wf]; try exact I; try lia.
 Qed.
